@@ -805,6 +805,11 @@ def top_lua_stack(env_stack: deque) -> Optional["_LuaTable"]:
 
 
 def append_lua_stack(env_stack: deque, env: "_LuaTable") -> None:
+    # This helper is reachable from module code.  Only environments belong on
+    # the stack: a nil pushed by a module would make the sandbox believe that
+    # no invocation is in progress (the time limit hook would go inert)
+    if env is None:
+        return
     env_stack.append(env)
 
 
